@@ -198,6 +198,30 @@ class IEG:
             return {}
         return {n: self.subst_ty(frame, a) for n, a in zip(names, args)}
 
+    def generic_const(self, frame, e):
+        """An associated constant named through a trait (`Self::RTYPE` in a provided method): looked up in the impl for
+        the frame's `Self`.  A fieldless-enum value is given as the variant it denotes."""
+        if e[0] != 'constdef' or e[3] is not None or "::" not in e[1]:
+            return e
+        fr = frame
+        selfty = None
+        while fr is not None and selfty is None:
+            st = (fr.subst or {}).get("Self")
+            if st and "param" not in st:
+                selfty = norm(st["s"])
+            fr = fr.parent
+        if selfty is None:
+            return e
+        trait, cname = e[1].rsplit("::", 1)
+        c = self.facts.consts.get("<%s as %s>::%s" % (selfty, trait, cname))
+        if c is None or c.get("k") != "int":
+            return e
+        v = int(c["v"])
+        vn = self.facts.variant_name(norm(c["ty"]), v)
+        if vn is not None:
+            return ('agg', 'adt', norm(c["ty"]) + "::" + vn, ())
+        return ('constdef', "<%s as %s>::%s" % (selfty, trait, cname), c["ty"], v)
+
     def coroutine_of(self, tyd):
         """Local coroutine / closure bodies mentioned by an awaited type."""
         out = []
@@ -644,6 +668,8 @@ class IEG:
                                 return ('agg', 'adt', 'std::task::Poll::Ready', ((0, r),))
                 return (k, e[1], tuple(rec(a) for a in e[2]), (frame.id, bb))
             return e
+        if k == 'constdef' and e[3] is None:
+            return self.generic_const(frame, e)
         if k == 'bin':
             return (k, e[1], rec(e[2]), rec(e[3]))
         if k == 'un':
